@@ -100,3 +100,20 @@ package planar
 // state): callers may name it in their contracts
 //@ func DistanceFromSegmentSquared(a, b, point)
 //@   function
+
+// ---------------------------------------------------------------- C10: the centroid of a line is the length-weighted mean of its segment midpoints
+// computed relative to the first vertex: sum of midpoint_k * d_k over the segments divided by the sum
+// of the d_k, shifted back by the first vertex; d_k is the distance between consecutive (shifted)
+// vertices; a line of total length 0 has its first vertex as centroid
+//@ func Distance(p1, p2)
+//@   function
+//@ spec segd(ls orb.LineString, k int) float64 = Distance(mk(orb.Point, ls[k][0] - ls[0][0], ls[k][1] - ls[0][1]), mk(orb.Point, ls[k+1][0] - ls[0][0], ls[k+1][1] - ls[0][1]))
+//@ spec cdx(ls orb.LineString, n int) float64 = ite(n <= 0, 0.0, cdx(ls, n-1) + ((ls[n-1][0] - ls[0][0]) + (ls[n][0] - ls[0][0])) / 2.0 * segd(ls, n-1))
+//@ spec cdy(ls orb.LineString, n int) float64 = ite(n <= 0, 0.0, cdy(ls, n-1) + ((ls[n-1][1] - ls[0][1]) + (ls[n][1] - ls[0][1])) / 2.0 * segd(ls, n-1))
+//@ spec cdd(ls orb.LineString, n int) float64 = ite(n <= 0, 0.0, cdd(ls, n-1) + segd(ls, n-1))
+//@ func lineStringCentroidDist(ls) (c, d)
+//@   floats abstract
+//@   function
+//@   ensures len(ls) >= 1 && cdd(ls, len(ls) - 1) == 0.0 ==> same(c, ls[0]) && same(d, 0.0)
+//@   ensures len(ls) >= 1 && !(cdd(ls, len(ls) - 1) == 0.0) ==> same(d, cdd(ls, len(ls) - 1)) && same(c[0], cdx(ls, len(ls) - 1) / cdd(ls, len(ls) - 1) + ls[0][0]) && same(c[1], cdy(ls, len(ls) - 1) / cdd(ls, len(ls) - 1) + ls[0][1])
+//@   loop 1: invariant 0 <= i && i <= len(ls) - 1 && same(offset, ls[0]) && same(point[0], cdx(ls, i)) && same(point[1], cdy(ls, i)) && same(dist, cdd(ls, i))
